@@ -57,7 +57,15 @@ def axes(tier, seed):
                 n_components=[1, 2] if tier == "quick" else [1, 2, 3, 4])
 
 
+COV_SHAPES = [(1.6, 1.1), (2.4, 0.9), (1.3, 1.3)]
+COV_THETAS = [0.0, 25.0, -60.0, 35.0, 90.0, 135.0]
+
+
 def cases(tier, seed):
+    # the noise covariance model itself: Cmatrix against the documented Gaussian correlation function, Bmatrix against
+    # B B' = inv(C)
+    for si, ti in itertools.product(range(len(COV_SHAPES)), range(len(COV_THETAS))):
+        yield "covmodel", dict(shape=si, theta=ti)
     lat = comp_lattice(seed)
     for ci in range(len(lat)):
         yield "n1", dict(ci=ci)
@@ -175,6 +183,38 @@ def check_one(comps, free, pset_name, pmask, variant, ctx, do_errors=True):
     ctx.outcome("errors:%s" % ("bad" if bad else "ok"))
 
 
+def ev_covmodel(case, ctx):
+    sx, sy = COV_SHAPES[case["shape"]]
+    th = COV_THETAS[case["theta"]] + core.seed_shift(ctx.seed, 9, 4.0)
+    for pname, pm in pixel_sets().items():
+        x, y = np.where(pm)
+        sig = "cov:sx=%g,sy=%g,theta=%.4g,pix=%s" % (sx, sy, th, pname)
+        ctx.count("covmodel")
+        ctx.nontrivial(sig)
+        C = np.asarray(fitting.Cmatrix(x, y, sx, sy, th))
+        ref = np.vstack([gm.model([(1.0, float(i), float(j), sx, sy, th)], x.astype(float), y.astype(float)) for i, j in zip(x, y)])
+        if C.shape != ref.shape or not np.max(np.abs(C - ref)) <= 1e-12:
+            w = np.unravel_index(int(np.argmax(np.abs(C - ref))), ref.shape) if C.shape == ref.shape else None
+            ctx.violation("Cmatrix(sx=%g, sy=%g, theta=%.4g) differs from the Gaussian correlation function by %.3g (pixels %r and %r: %.6g vs %.6g) (%s)" % (
+                sx, sy, th, float(np.max(np.abs(C - ref))) if w else np.nan, (int(x[w[0]]), int(y[w[0]])) if w else None,
+                (int(x[w[1]]), int(y[w[1]])) if w else None, C[w] if w else np.nan, ref[w] if w else np.nan, sig), "cmatrix|" + sig)
+            ctx.outcome("cov:cmatrix_differs")
+            continue
+        B = np.asarray(fitting.Bmatrix(ref))
+        # B B' = inv(C) where C is well conditioned (eigenvalues above Bmatrix's floor of 1e-9 of the largest)
+        ev = np.linalg.eigvalsh(ref)
+        if ev[0] > 1e-7 * ev[-1]:
+            resid = float(np.max(np.abs(B.dot(B.T).dot(ref) - np.eye(len(x)))))
+            ctx.note_max("bmatrix_residual", resid)
+            if not resid <= 1e-6:
+                ctx.violation("Bmatrix: B B' C differs from the identity by %.3g (%s)" % (resid, sig), "bmatrix|" + sig)
+                ctx.outcome("cov:bmatrix_differs")
+                continue
+            ctx.outcome("cov:ok")
+        else:
+            ctx.outcome("cov:ok_C_illconditioned_B_not_judged")
+
+
 VARIANTS = ["none", "errs", "B", "errs+B", "C"]
 
 
@@ -230,4 +270,6 @@ def ev_nk(case, ctx):
 
 
 def evaluate(clause, case, ctx):
+    if clause == "covmodel":
+        return ev_covmodel(case, ctx)
     dict(n1=ev_n1, n2=ev_n2, nk=ev_nk)[clause](case, ctx)
